@@ -34,7 +34,7 @@ BROKEN = ['fn broken( {', 'this is not rust at all', 'fn ok() {}\nfn f() {\n    
 class C15(C.PipelineCheck):
     id = 'C15'
     title = 'No input makes analysis or generation panic; bad files are isolated'
-    required_covers = ('kernel:ascii', 'kernel:utf8', 'attribute', 'identifier', 'unparsable', 'isolated')
+    required_covers = ('kernel:ascii', 'kernel:utf8', 'attribute', 'identifier', 'unparsable', 'isolated', 'calls')
 
     def bounds(self, tier):
         q = tier != 'thorough'
@@ -70,6 +70,9 @@ class C15(C.PipelineCheck):
                 yield ('ident/%s/%d' % (what, n), dict(kind='ident', what=what, n=n))
         for b in range(len(BROKEN)):
             yield ('unparsable/%d' % b, dict(kind='unparsable', b=b))
+        # calls that merely look like Tauri's emit API, with any number of arguments (a home-grown bus, a different trait)
+        for meth in ('emit', 'emit_to', 'emit_filter', 'emit_str'):
+            yield ('calls/%s' % meth, dict(kind='calls', meth=meth))
 
     def mutant_scenarios(self, tier, name):
         for j in self.scenarios('quick'):
@@ -134,6 +137,16 @@ class C15(C.PipelineCheck):
                     src = 'pub fn fire(app: tauri::AppHandle) { app.emit("HOLE_l", "HOLE_l").unwrap(); }\n#[derive(Serialize, Deserialize)]\npub struct Foo { pub a: String }\n'
                 files['src/main.rs'] = head + src + CMD + 'cmd(x: Foo) -> i32 { 0 }\n'
                 e.cover('attribute')
+            elif kind == 'calls':
+                nargs = e.choose(5)
+                recv = ('app', 'window', 'self.app', 'bus.sender()', 'app.clone()')[e.choose(5)]
+                lit = sym.sym_str_utf8('l', 1)
+                holes['l'] = lit
+                args = ['"HOLE_l"', 'payload', '"x"', '42'][:nargs]
+                src = ('pub fn fire(app: tauri::AppHandle, window: tauri::Window, bus: Bus, payload: Foo) {\n    %s.%s(%s);\n}\n'
+                       '#[derive(Serialize, Deserialize)]\npub struct Foo { pub a: String }\n' % (recv, p['meth'], ', '.join(args)))
+                files['src/main.rs'] = C.HEADER + src + CMD + 'cmd(x: Foo) -> i32 { 0 }\n'
+                e.cover('calls')
             elif kind == 'ident':
                 # identifiers in UTF-8 mode: letters of the representative set or ASCII letters/underscore
                 cs = []
@@ -198,6 +211,8 @@ class C15(C.PipelineCheck):
                         tag = 'ident:' + p['what']
                     if kind == 'unparsable':
                         tag = 'unparsable:%d' % p['b']
+                    if kind == 'calls':
+                        tag = 'calls:' + p['meth']
                     ctx.violation(e, 'C15/%s/%s/panic' % (tag, mode), 'no panic on any input', True,
                                   lambda m: C.witness_of(proj, m, dict(mode=mode, kind='panic', panic=pn.msg)), pn.msg)
                 return
